@@ -1,3 +1,4 @@
+import Comdex.Model.Accrual
 /-
 Model of the locker and collector books (property C13).  Core Lean only.
 
@@ -93,6 +94,18 @@ structure Lk where
   ids       : List Nat
   deriving DecidableEq, Repr
 
+/-- `CollectorLookupTableData` (key = (app, collector asset)): saving rate with the block height / time at which it was
+last set (`BlockHeight = 0` marks "rate is zero"), and the auction thresholds. -/
+structure CL where
+  lsr        : Dec := 0
+  bh         : Int := 0
+  bt         : Int := 0
+  surplusThr : Int := 0
+  debtThr    : Int := 0
+  lot        : Int := 0
+  debtLot    : Int := 0
+  deriving DecidableEq, Repr
+
 structure State where
   bank    : Bank := []
   lockers : Store Nat Locker := []
@@ -101,7 +114,10 @@ structure State where
   lastId  : Nat := 0                        -- GetIDForLocker
   assets  : List Nat := []
   apps    : List Nat := []
-  collk   : List (Nat × Nat) := []          -- keys of the collector lookup table
+  collk   : Store (Nat × Nat) CL := []      -- collector lookup table
+  ltime   : Store Nat (Int × Int) := []     -- Locker.BlockHeight, Locker.BlockTime (unix seconds)
+  trackers : Store (Nat × Nat) Dec := []    -- LockerRewardsTracker.RewardsAccumulated, key (locker id, app)
+  rewardWl : List (Nat × Nat) := []         -- (app, asset) whitelisted for internal rewards (`GetReward` found)
   deriving Repr, DecidableEq
 
 def bal (s : State) (a : Acct) (d : Nat) : Int := s.bank.bal a d
@@ -219,37 +235,43 @@ inductive Op where
   | v2DebtClose (app asset : Nat) (c d : Int)             -- CloseEnglishAuction, debt branch: receives d, records c
   deriving Repr
 
-/-- one iteration of `LockerIterateRewards` for locker `id`. `none` = the whole call panics. The Boolean says whether the loop goes on
-(`return` on a reward-calculation error). -/
-def lsrIter (s : State) (app asset id : Nat) (rw : Rw) : Option (State × Bool) :=
+/-- how one iteration of `LockerIterateRewards` ends: `stop` = `return` (reward-calculation error), `next paid` = the loop goes
+on, `paid` saying whether the pay branch ran to its end (it does not after a `continue`). -/
+inductive IterRes where
+  | stop
+  | next (paid : Bool)
+  deriving DecidableEq, Repr
+
+/-- one iteration of `LockerIterateRewards` for locker `id`. `none` = the whole call panics. -/
+def lsrIter (s : State) (app asset id : Nat) (rw : Rw) : Option (State × IterRes) :=
   match Store.get s.lockers id with
   | none => none                                -- nil NetBalance: panic in CalculationOfRewards
   | some l =>
     match rw with
-    | .fail => some (s, false)                  -- `return`
-    | .none => some (s, true)
+    | .fail => some (s, .stop)                  -- `return`
+    | .none => some (s, .next false)
     | .pay ρ =>
       match decNetFee s (app, l.asset) ρ with
-      | none => some (s, true)                  -- `continue`
+      | none => some (s, .next false)           -- `continue`
       | some s1 =>
         let bank? := if ρ > 0 then s1.bank.send .collector .locker asset ρ else some s1.bank
         match bank? with
-        | none => some (s1, true)               -- `continue` after the net fee was already decreased
+        | none => some (s1, .next false)        -- `continue` after the net fee was already decreased
         | some b =>
           match Store.get s1.lookup (app, asset) with
           | none => none
           | some lk =>
             some ({ s1 with bank := b,
                             lockers := Store.put s1.lockers id { l with net := l.net + ρ, ret := l.ret + ρ },
-                            lookup := Store.put s1.lookup (app, asset) { lk with deposited := lk.deposited + ρ } }, true)
+                            lookup := Store.put s1.lookup (app, asset) { lk with deposited := lk.deposited + ρ } }, .next true)
 
 def lsrLoop (s : State) (app asset : Nat) : List Nat → List Rw → Option State
   | [], _ => some s
   | id :: ids, rws =>
     match lsrIter s app asset id (rws.headD .none) with
     | none => none
-    | some (s1, true) => lsrLoop s1 app asset ids rws.tail
-    | some (s1, false) => some s1
+    | some (s1, .next _) => lsrLoop s1 app asset ids rws.tail
+    | some (s1, .stop) => some s1
 
 def step (s : State) : Op → Option State
   | .fund u asset x => (s.bank.mint (.user u) asset x).map fun b => { s with bank := b }
@@ -264,7 +286,7 @@ def step (s : State) : Op → Option State
     else if asset ∉ s.assets then none
     else if app ∉ s.apps then none
     else if userHasLocker s u app asset then none
-    else if (app, asset) ∉ s.collk then none
+    else if (Store.get s.collk (app, asset)).isNone then none
     else match Store.get s.lookup (app, asset) with
       | none => none
       | some lk =>
@@ -393,6 +415,147 @@ def run (s : State) : List Op → Option State
 def runSkip (s : State) : List Op → State
   | [] => s
   | op :: ops => runSkip ((step s op).getD s) ops
+
+/-! ## the savings reward computed inside the model (x/rewards/keeper/rewards.go:538-576, iter.go:178-207)
+
+`CalculateLockerRewards` accrues `CalculationOfRewards(netBalance, savingRate, since)` — float64 arithmetic around ONE call of
+`math.Pow`, modelled exactly in `Comdex.Accrual` with the value of that call as the only input `pw` — into a per-locker tracker and
+hands whole units to the ledger code (`Rw`). `since` is the locker's own block time, or the collector entry's block time when the
+locker's block height is 0 (created / last touched while the rate was zero). -/
+
+structure Ctx where
+  now    : Int      -- ctx.BlockTime().Unix()
+  height : Int      -- ctx.BlockHeight()
+  deriving DecidableEq, Repr
+
+def tracker (s : State) (id app : Nat) : Dec := (Store.get s.trackers (id, app)).getD 0
+
+/-- seconds the code passes to `CalculationOfRewards` for locker `id` under collector entry `c` -/
+def elapsed (ctx : Ctx) (c : CL) (lt : Int × Int) : Int := ctx.now - (if lt.1 = 0 then c.bt else lt.2)
+
+/-- What `CalculateLockerRewards` decides before it touches the ledger: the `Rw` handed on, and the tracker value it stores
+(`none`: it returned before accruing — asset not whitelisted for rewards, or saving rate zero). -/
+def accrue (s : State) (ctx : Ctx) (app asset id : Nat) (pw : Option Int) : Rw × Option Dec :=
+  if (app, asset) ∉ s.rewardWl then (.none, none)
+  else match Store.get s.collk (app, asset) with
+    | none => (.fail, none)
+    | some c =>
+      if c.lsr = 0 then (.none, none)
+      else match Store.get s.lockers id, Store.get s.ltime id with
+        | some l, some lt =>
+          match Accrual.calcRewards l.net c.lsr (elapsed ctx c lt) pw with
+          | .ok x =>
+            let tr := tracker s id app
+            if Dec.one ≤ tr + x then (.pay (Accrual.trackerStep tr x).1, some (Accrual.trackerStep tr x).2)
+            else (.none, some (tr + x))
+          | _ => (.fail, none)
+        | _, _ => (.fail, none)
+
+def setTracker (s : State) (id app : Nat) : Option Dec → State
+  | none => s
+  | some t => { s with trackers := Store.put s.trackers (id, app) t }
+
+def touch (s : State) (id : Nat) (ctx : Ctx) : State :=
+  { s with ltime := Store.put s.ltime id (ctx.height, ctx.now) }
+
+/-- one iteration of `LockerIterateRewards` with the reward computed (old rate `lsr`, collector time `cbt`); `ct` = `changeTypes`. -/
+def lsrIterT (s : State) (ctx : Ctx) (app asset id : Nat) (lsr : Dec) (cbt : Int) (ct : Bool) (pw : Option Int) :
+    Option (State × Bool) :=
+  match Store.get s.lockers id, Store.get s.ltime id with
+  | some l, some lt =>
+    match Accrual.calcRewards l.net lsr (ctx.now - (if lt.1 = 0 then cbt else lt.2)) pw with
+    | .panic => none
+    | .err => some (s, false)                         -- `return`
+    | .ok x =>
+      let tr := tracker s id app
+      let stamp : Int × Int := (if ct then ctx.height else 0, ctx.now)
+      if Dec.one ≤ tr + x then
+        let s0 := { s with trackers := Store.put s.trackers (id, app) (Accrual.trackerStep tr x).2 }
+        match lsrIter s0 app asset id (.pay (Accrual.trackerStep tr x).1) with
+        | none => none
+        | some (s1, .next true) => some ({ s1 with ltime := Store.put s1.ltime id stamp }, true)
+        | some (s1, _) => some (s1, true)             -- `continue`: tracker already lowered, time stamp not renewed
+      else
+        some ({ s with trackers := Store.put s.trackers (id, app) (tr + x), ltime := Store.put s.ltime id stamp }, true)
+  | _, _ => none
+
+def lsrLoopT (s : State) (ctx : Ctx) (app asset : Nat) (lsr : Dec) (cbt : Int) (ct : Bool) : List Nat → List (Option Int) → Option State
+  | [], _ => some s
+  | id :: ids, pws =>
+    match lsrIterT s ctx app asset id lsr cbt ct (pws.headD none) with
+    | none => none
+    | some (s1, true) => lsrLoopT s1 ctx app asset lsr cbt ct ids pws.tail
+    | some (s1, false) => some s1
+
+def iterateRewards (s : State) (ctx : Ctx) (app asset : Nat) (lsr : Dec) (cbt : Int) (ct : Bool) (pws : List (Option Int)) : Option State :=
+  match Store.get s.lookup (app, asset) with
+  | none => some s
+  | some lk => lsrLoopT s ctx app asset lsr cbt ct lk.ids pws
+
+/-- operations with the reward computed inside the model -/
+inductive OpT where
+  | create (u app asset : Nat) (amt : Int)
+  | deposit (u app asset id : Nat) (amt : Int) (pw : Option Int)
+  | withdraw (u app asset id : Nat) (amt : Int) (pw : Option Int)
+  | close (u app asset id : Nat) (pw : Option Int)
+  | rewardCalc (app id : Nat) (pw : Option Int)
+  | lsrUpdate (app asset : Nat) (c : CL) (pws : List (Option Int))    -- WasmUpdateCollectorLookupTable (`c.bh`, `c.bt` unused)
+  | wlReward (app asset : Nat)                                       -- WhitelistAssetForInternalRewards
+  | plain (op : Op)                                                  -- every operation that involves no reward
+  deriving Repr
+
+/-- ops that carry an `Rw` or are superseded by a timed op may not be smuggled in through `plain` -/
+def Op.isPlain : Op → Bool
+  | .create .. | .deposit .. | .withdraw .. | .close .. | .rewardCalc .. | .lsrChange .. => false
+  | _ => true
+
+def stepT (s : State) (ctx : Ctx) : OpT → Option State
+  | .create u app asset amt =>
+    (step s (.create u app asset amt)).map fun s1 =>
+      let zero := match Store.get s.collk (app, asset) with | some c => decide (c.lsr = 0) | none => true
+      { s1 with ltime := Store.put s1.ltime s1.lastId (if zero then 0 else ctx.height, ctx.now) }
+  | .deposit u app asset id amt pw =>
+    let a := accrue s ctx app asset id pw
+    (step s (.deposit u app asset id amt a.1)).map fun s1 => touch (setTracker s1 id app a.2) id ctx
+  | .withdraw u app asset id amt pw =>
+    let a := accrue s ctx app asset id pw
+    (step s (.withdraw u app asset id amt a.1)).map fun s1 => touch (setTracker s1 id app a.2) id ctx
+  | .close u app asset id pw =>
+    let a := accrue s ctx app asset id pw
+    (step s (.close u app asset id a.1)).map fun s1 =>
+      { s1 with ltime := Store.del s1.ltime id, trackers := Store.del s1.trackers (id, app) }
+  | .rewardCalc app id pw =>
+    match Store.get s.lockers id with
+    | none => none
+    | some l =>
+      let a := accrue s ctx app l.asset id pw
+      (step s (.rewardCalc app id a.1)).map fun s1 =>
+        match a.2 with
+        | none => s1
+        | some t => touch (setTracker s1 id app (some t)) id ctx
+  | .lsrUpdate app asset c pws =>
+    match Store.get s.collk (app, asset) with
+    | none => none
+    | some old =>
+      let fin (s1 : State) (bh bt : Int) : State :=
+        { s1 with collk := Store.put s1.collk (app, asset) { c with bh := bh, bt := bt } }
+      if (app, asset) ∈ s.rewardWl then
+        if c.lsr = 0 then
+          (iterateRewards s ctx app asset old.lsr old.bt false pws).map fun s1 => fin s1 0 ctx.now
+        else if old.lsr = 0 then some (fin s ctx.height ctx.now)
+        else if old.lsr > 0 ∧ c.lsr > 0 then
+          (iterateRewards s ctx app asset old.lsr old.bt true pws).map fun s1 => fin s1 ctx.height ctx.now
+        else some (fin s old.bh old.bt)
+      else some (fin s old.bh old.bt)
+  | .wlReward app asset =>
+    if (Store.get s.lookup (app, asset)).isNone then none
+    else if (app, asset) ∈ s.rewardWl then some s
+    else some { s with rewardWl := s.rewardWl ++ [(app, asset)] }
+  | .plain op => if op.isPlain then step s op else none
+
+def runSkipT (s : State) : List (Ctx × OpT) → State
+  | [] => s
+  | (ctx, op) :: ops => runSkipT ((stepT s ctx op).getD s) ops
 
 /-! ## decidable monitors (evaluated by the driver on the REAL state projection) -/
 
